@@ -349,10 +349,15 @@ CoreVocab == IdentToks \cup NumToks \cup BinOpSet \cup UnOpSet
 InCore(toks) == \A i \in 1..Len(toks) : toks[i] \in CoreVocab
 
 T(toks, p) == IF p <= Len(toks) THEN toks[p] ELSE "<eof>"
-Good(t, p) == [ok |-> TRUE, t |-> t, p |-> p]
-Fail(p) == [ok |-> FALSE, t |-> None, p |-> p]
+\* results: ok, tree, next position, g = "the expression ends with a form that consumes as many
+\* tokens as possible (if / error ...)": nothing of the enclosing operator expression may follow
+\* it ("there cannot be an operator after a greedy parse")
+Good(t, p) == [ok |-> TRUE, t |-> t, p |-> p, g |-> FALSE]
+GoodG(t, p, g) == [ok |-> TRUE, t |-> t, p |-> p, g |-> g]
+Fail(p) == [ok |-> FALSE, t |-> None, p |-> p, g |-> FALSE]
+
 RECURSIVE RpE(_, _, _)
-RECURSIVE RpClimb(_, _, _, _, _)
+RECURSIVE RpClimb(_, _, _, _, _, _)
 RECURSIVE RpU(_, _)
 RECURSIVE RpPost(_, _, _)
 RECURSIVE RpPrim(_, _)
@@ -437,12 +442,13 @@ RpPost(toks, lhs, p) ==
          RpPost(toks, <<"call", lhs, args, r.tc, ts>>, IF ts THEN r.p + 1 ELSE r.p)
   ELSE Good(lhs, p)
 
+\* a unary-level operand: unary operators, then either a greedy form or a primary with its postfixes
 RpU(toks, p) ==
   LET t == T(toks, p) IN
   IF t \in UnOpSet THEN
-    LET r == RpU(toks, p + 1) IN IF r.ok THEN Good(<<"un", t, r.t>>, r.p) ELSE r
+    LET r == RpU(toks, p + 1) IN IF r.ok THEN GoodG(<<"un", t, r.t>>, r.p, r.g) ELSE r
   ELSE IF t = "error" THEN
-    LET r == RpE(toks, p + 1, 1) IN IF r.ok THEN Good(<<"error", r.t>>, r.p) ELSE r
+    LET r == RpE(toks, p + 1, 1) IN IF r.ok THEN GoodG(<<"error", r.t>>, r.p, TRUE) ELSE r
   ELSE IF t = "if" THEN
     LET rc == RpE(toks, p + 1, 1) IN
     IF ~rc.ok THEN rc
@@ -451,25 +457,27 @@ RpU(toks, p) ==
          IF ~rt.ok THEN rt
          ELSE IF T(toks, rt.p) = "else" THEN
                 LET re == RpE(toks, rt.p + 1, 1) IN
-                IF re.ok THEN Good(<<"if", rc.t, rt.t, re.t>>, re.p) ELSE re
-         ELSE Good(<<"if", rc.t, rt.t, None>>, rt.p)
+                IF re.ok THEN GoodG(<<"if", rc.t, rt.t, re.t>>, re.p, TRUE) ELSE re
+         ELSE GoodG(<<"if", rc.t, rt.t, None>>, rt.p, TRUE)
   ELSE LET r == RpPrim(toks, p) IN IF r.ok THEN RpPost(toks, r.t, r.p) ELSE r
 
 \* lhs is a complete operand of level > maxl or an expression of level maxl; absorb binary
 \* operators whose level lies in mp..maxl (an operator that binds tighter than maxl cannot
 \* follow: the operand to its left would have had to absorb it - this matters after `in super`,
-\* whose right-hand side `super` is not an expression: `a in super * b` is not a sentence)
-RpClimb(toks, lhs, p, mp, maxl) ==
+\* whose right-hand side `super` is not an expression: `a in super * b` is not a sentence).
+\* g: lhs ends with a greedy form, so nothing can be absorbed any more.
+RpClimb(toks, lhs, p, mp, maxl, g) ==
   LET t == T(toks, p) IN
-  IF t \in BinOpSet /\ Level(t) >= mp /\ Level(t) <= maxl THEN
+  IF g THEN GoodG(lhs, p, TRUE)
+  ELSE IF t \in BinOpSet /\ Level(t) >= mp /\ Level(t) <= maxl THEN
     IF t = "in" /\ T(toks, p + 1) = "super" /\ T(toks, p + 2) \notin {".", "["}
-    THEN RpClimb(toks, <<"insuper", lhs>>, p + 2, mp, Level("in"))
+    THEN RpClimb(toks, <<"insuper", lhs>>, p + 2, mp, Level("in"), FALSE)
     ELSE LET r == RpE(toks, p + 1, Level(t) + 1) IN
-         IF r.ok THEN RpClimb(toks, <<"bin", t, lhs, r.t>>, r.p, mp, Level(t)) ELSE r
+         IF r.ok THEN RpClimb(toks, <<"bin", t, lhs, r.t>>, r.p, mp, Level(t), r.g) ELSE r
   ELSE Good(lhs, p)
 
 RpE(toks, p, mp) ==
-  LET u == RpU(toks, p) IN IF u.ok THEN RpClimb(toks, u.t, u.p, mp, 10) ELSE u
+  LET u == RpU(toks, p) IN IF u.ok THEN RpClimb(toks, u.t, u.p, mp, 10, u.g) ELSE u
 
 (* RefParse(toks): [ok, t, p]; on failure p is the index of the token the   *)
 (* parse cannot get past (Len(toks)+1 = end of input).                      *)
